@@ -1,8 +1,23 @@
 (* Values.v — data types, values, the heap/context state and the state-and-failure monad of the
    interpreter model.  NodeResult keeps its DataType tag and its payload SEPARATE, exactly as the
    C++ does; consumers use partial downcasts that return a Crash when tag and payload disagree. *)
+From Coq Require Export FSets.FMapPositive.
 From PE2 Require Export Ast Real.
 Local Open Scope Z_scope.
+
+(* finite maps keyed by the ids of the heap (N), as binary tries *)
+Definition nmap (A : Type) := PositiveMap.t A.
+Definition nm_empty {A} : nmap A := PositiveMap.empty A.
+Definition nm_get {A} (k : N) (m : nmap A) : option A := PositiveMap.find (N.succ_pos k) m.
+Definition nm_put {A} (k : N) (v : A) (m : nmap A) : nmap A := PositiveMap.add (N.succ_pos k) v m.
+
+Lemma nm_get_put_same {A} k (v : A) m : nm_get k (nm_put k v m) = Some v.
+Proof. unfold nm_get, nm_put. apply PositiveMap.gss. Qed.
+Lemma nm_get_put_other {A} k k' (v : A) m : k <> k' -> nm_get k' (nm_put k v m) = nm_get k' m.
+Proof.
+  intros H. unfold nm_get, nm_put. apply PositiveMap.gso. intro E. apply H.
+  apply (f_equal Pos.pred_N) in E. rewrite !N.pos_pred_succ in E. congruence.
+Qed.
 
 Record dtype := mkDT { dk : dkind; dname : option str }.
 Definition dt_none := mkDT KNone None.
@@ -51,7 +66,8 @@ Record ctx := mkCtx {
   x_comps : list (str * block);
   x_isfun : bool; x_isrec : bool;
   x_rettype : dtype; x_retval : option result;
-  x_switch : option (Z * Z) }.
+  x_switch : option (Z * Z);
+  x_depth : nat }.                    (* distance to the root of the parent chain *)
 
 Record pdef := mkPdef { pd_params : list (str * dtype * bool); pd_body : block }.
 Record fdef := mkFdef { fd_params : list (str * dtype * bool); fd_body : block; fd_ret : dtype; fd_tok : token }.
@@ -67,7 +83,7 @@ Record diag := mkDiag { d_kind : dkindg; d_line : Z; d_col : Z; d_cls : ecls; d_
 
 Record st := mkSt {
   s_next : N;
-  s_cells : list (N * cell); s_arrs : list (N * arr); s_ctxs : list (N * ctx);
+  s_cells : nmap cell; s_arrs : nmap arr; s_ctxs : nmap ctx;
   s_procs : list (str * pdef); s_funcs : list (str * fdef);
   s_out : list str;                   (* chunks, most recent first *)
   s_in : str;                         (* unread standard input *)
@@ -133,30 +149,34 @@ Definition set_rand v s := mkSt (s_next s) (s_cells s) (s_arrs s) (s_ctxs s) (s_
 Definition fresh : M N := fun s => (Ok (s_next s), set_next (N.succ (s_next s)) s).
 
 Definition get_cell (id : N) : M cell :=
-  fun s => match assoc_n id (s_cells s) with Some c => (Ok c, s) | None => (Fail (FCrash "dangling cell"), s) end.
-Definition put_cell (id : N) (c : cell) : M unit := modify (fun s => set_cells (update_n id c (s_cells s)) s).
+  fun s => match nm_get id (s_cells s) with Some c => (Ok c, s) | None => (Fail (FCrash "dangling cell"), s) end.
+Definition put_cell (id : N) (c : cell) : M unit := modify (fun s => set_cells (nm_put id c (s_cells s)) s).
 Definition get_arr (id : N) : M arr :=
-  fun s => match assoc_n id (s_arrs s) with Some a => (Ok a, s) | None => (Fail (FCrash "dangling array"), s) end.
-Definition put_arr (id : N) (a : arr) : M unit := modify (fun s => set_arrs (update_n id a (s_arrs s)) s).
+  fun s => match nm_get id (s_arrs s) with Some a => (Ok a, s) | None => (Fail (FCrash "dangling array"), s) end.
+Definition put_arr (id : N) (a : arr) : M unit := modify (fun s => set_arrs (nm_put id a (s_arrs s)) s).
 Definition get_ctx (id : N) : M ctx :=
-  fun s => match assoc_n id (s_ctxs s) with Some c => (Ok c, s) | None => (Fail (FCrash "dangling context"), s) end.
-Definition put_ctx (id : N) (c : ctx) : M unit := modify (fun s => set_ctxs (update_n id c (s_ctxs s)) s).
+  fun s => match nm_get id (s_ctxs s) with Some c => (Ok c, s) | None => (Fail (FCrash "dangling context"), s) end.
+Definition put_ctx (id : N) (c : ctx) : M unit := modify (fun s => set_ctxs (nm_put id c (s_ctxs s)) s).
 
 Definition upd_ctx (id : N) (f : ctx -> ctx) : M unit := c <- get_ctx id ;; put_ctx id (f c).
 Definition set_cell_val (id : N) (v : payload) : M unit :=
   c <- get_cell id ;; put_cell id (mkCell (c_name c) (c_type c) (c_const c) (c_owner c) v).
 
-Definition ctx_with_vars v c := mkCtx (x_parent c) (x_name c) v (x_arrs c) (x_enums c) (x_ptrs c) (x_comps c) (x_isfun c) (x_isrec c) (x_rettype c) (x_retval c) (x_switch c).
-Definition ctx_with_arrs v c := mkCtx (x_parent c) (x_name c) (x_vars c) v (x_enums c) (x_ptrs c) (x_comps c) (x_isfun c) (x_isrec c) (x_rettype c) (x_retval c) (x_switch c).
-Definition ctx_with_enums v c := mkCtx (x_parent c) (x_name c) (x_vars c) (x_arrs c) v (x_ptrs c) (x_comps c) (x_isfun c) (x_isrec c) (x_rettype c) (x_retval c) (x_switch c).
-Definition ctx_with_ptrs v c := mkCtx (x_parent c) (x_name c) (x_vars c) (x_arrs c) (x_enums c) v (x_comps c) (x_isfun c) (x_isrec c) (x_rettype c) (x_retval c) (x_switch c).
-Definition ctx_with_comps v c := mkCtx (x_parent c) (x_name c) (x_vars c) (x_arrs c) (x_enums c) (x_ptrs c) v (x_isfun c) (x_isrec c) (x_rettype c) (x_retval c) (x_switch c).
-Definition ctx_with_retval v c := mkCtx (x_parent c) (x_name c) (x_vars c) (x_arrs c) (x_enums c) (x_ptrs c) (x_comps c) (x_isfun c) (x_isrec c) (x_rettype c) v (x_switch c).
-Definition ctx_with_switch v c := mkCtx (x_parent c) (x_name c) (x_vars c) (x_arrs c) (x_enums c) (x_ptrs c) (x_comps c) (x_isfun c) (x_isrec c) (x_rettype c) (x_retval c) v.
+Definition ctx_with_vars v c := mkCtx (x_parent c) (x_name c) v (x_arrs c) (x_enums c) (x_ptrs c) (x_comps c) (x_isfun c) (x_isrec c) (x_rettype c) (x_retval c) (x_switch c) (x_depth c).
+Definition ctx_with_arrs v c := mkCtx (x_parent c) (x_name c) (x_vars c) v (x_enums c) (x_ptrs c) (x_comps c) (x_isfun c) (x_isrec c) (x_rettype c) (x_retval c) (x_switch c) (x_depth c).
+Definition ctx_with_enums v c := mkCtx (x_parent c) (x_name c) (x_vars c) (x_arrs c) v (x_ptrs c) (x_comps c) (x_isfun c) (x_isrec c) (x_rettype c) (x_retval c) (x_switch c) (x_depth c).
+Definition ctx_with_ptrs v c := mkCtx (x_parent c) (x_name c) (x_vars c) (x_arrs c) (x_enums c) v (x_comps c) (x_isfun c) (x_isrec c) (x_rettype c) (x_retval c) (x_switch c) (x_depth c).
+Definition ctx_with_comps v c := mkCtx (x_parent c) (x_name c) (x_vars c) (x_arrs c) (x_enums c) (x_ptrs c) v (x_isfun c) (x_isrec c) (x_rettype c) (x_retval c) (x_switch c) (x_depth c).
+Definition ctx_with_retval v c := mkCtx (x_parent c) (x_name c) (x_vars c) (x_arrs c) (x_enums c) (x_ptrs c) (x_comps c) (x_isfun c) (x_isrec c) (x_rettype c) v (x_switch c) (x_depth c).
+Definition ctx_with_switch v c := mkCtx (x_parent c) (x_name c) (x_vars c) (x_arrs c) (x_enums c) (x_ptrs c) (x_comps c) (x_isfun c) (x_isrec c) (x_rettype c) (x_retval c) v (x_depth c).
 
 Definition new_ctx (parent : option N) (name : str) (isfun isrec : bool) (rett : dtype) : M N :=
+  d <- match parent with
+       | None => ret O
+       | Some p => pc <- get_ctx p ;; ret (S (x_depth pc))
+       end ;;
   id <- fresh ;;
-  put_ctx id (mkCtx parent name [] [] [] [] [] isfun isrec rett None None) ;;;
+  put_ctx id (mkCtx parent name [] [] [] [] [] isfun isrec rett None None d) ;;;
   ret id.
 
 Definition emit (s : str) : M unit := modify (fun st0 => set_out (s :: s_out st0) st0).
@@ -168,7 +188,7 @@ Fixpoint root_of_aux (fuel : nat) (id : N) : M N :=
   | O => crash "context chain too long"
   | S f => c <- get_ctx id ;; match x_parent c with None => ret id | Some p => root_of_aux f p end
   end.
-Definition root_of (id : N) : M N := fun s => root_of_aux (S (List.length (s_ctxs s))) id s.
+Definition root_of (id : N) : M N := c <- get_ctx id ;; root_of_aux (S (x_depth c)) id.
 
 (* first ancestor (or self) that is not a record context : Pointer::setValue *)
 Fixpoint nonrec_ancestor_aux (fuel : nat) (id : N) : M N :=
@@ -178,7 +198,7 @@ Fixpoint nonrec_ancestor_aux (fuel : nat) (id : N) : M N :=
            if x_isrec c then match x_parent c with Some p => nonrec_ancestor_aux f p | None => crash "record context without parent" end
            else ret id
   end.
-Definition nonrec_ancestor (id : N) : M N := fun s => nonrec_ancestor_aux (S (List.length (s_ctxs s))) id s.
+Definition nonrec_ancestor (id : N) : M N := c <- get_ctx id ;; nonrec_ancestor_aux (S (x_depth c)) id.
 
 (* is [target] on the caller chain starting at [id]?  (PointerDereferencer liveness walk) *)
 Fixpoint on_chain_aux (fuel : nat) (id target : N) : M bool :=
@@ -187,7 +207,7 @@ Fixpoint on_chain_aux (fuel : nat) (id target : N) : M bool :=
   | S f => if N.eqb id target then ret true
            else c <- get_ctx id ;; match x_parent c with Some p => on_chain_aux f p target | None => ret false end
   end.
-Definition on_chain (id target : N) : M bool := fun s => on_chain_aux (S (List.length (s_ctxs s))) id target s.
+Definition on_chain (id target : N) : M bool := c <- get_ctx id ;; on_chain_aux (S (x_depth c)) id target.
 
 (* traceback of RuntimeError(token, context) *)
 Fixpoint trace_aux (fuel : nat) (id : option N) : M (list (str * Z * Z)) :=
@@ -201,7 +221,7 @@ Fixpoint trace_aux (fuel : nat) (id : option N) : M (list (str * Z * Z)) :=
   end.
 
 Definition runtime_error_cls {A} (cls : ecls) (t : token) (c : N) : M A :=
-  fun s => match (cx <- get_ctx c ;; rest <- trace_aux (S (List.length (s_ctxs s))) (x_parent cx) ;;
+  fun s => match (cx <- get_ctx c ;; rest <- trace_aux (S (x_depth cx)) (x_parent cx) ;;
                   ret (mkDiag DRuntime (tline t) (tcol t) cls ((x_name cx, tline t, tcol t) :: rest))) s with
            | (Ok d, s') => (Fail (FErr d), s')
            | (Fail f, s') => (Fail f, s')
@@ -253,7 +273,7 @@ Section DefLookup.
       end
     end.
   Definition lookup_def (c : N) (name : str) (global : bool) : M (option D) :=
-    fun s => lookup_def_aux (S (List.length (s_ctxs s))) c name global s.
+    cx <- get_ctx c ;; lookup_def_aux (S (x_depth cx)) c name global.
 End DefLookup.
 
 Definition lookup_enum_def := lookup_def x_enums.
